@@ -86,7 +86,7 @@ def check_curve(ctx, params, grid, mean, kappa, et, inp):
 
     def f(z):
         return float(sy(z)) / (-et - kappa * T_ref(z))
-    for _ in range(2 if n >= 2 else 0):
+    for _ in range((2 if n < 10 else 5) if n >= 2 else 0):
         i, j = sorted(ctx.rng.sample(range(n), 2))
         direct = si.quad(f, grid[i], grid[j], limit=200)[0]
         if abs((t[j] - t[i]) - direct) > 1e-6 * max(1e-9, abs(direct)) + 1e-12:
@@ -94,7 +94,12 @@ def check_curve(ctx, params, grid, mean, kappa, et, inp):
                    "levels": [grid[i], grid[j]], "difference": t[j] - t[i], "integral": direct}
     if wit is None and abs(float(np.mean(t)) - mean) > 1e-9 * max(1.0, abs(mean), max(abs(v) for v in t)):
         wit = {"why": "mean of the curve is not the requested mean"}
-    if wit is None and any(b >= a for a, b in zip(t, t[1:])):
+    # "time increases as the level falls" presupposes a positive specific yield: a cubic through sparse knots may dip
+    # below zero between them, and then the water-balance integral (signed) is what the property states
+    sy_positive = min(float(sy(z)) for z in np.linspace(min(grid), max(grid), 300)) > 0.0
+    if not sy_positive:
+        ctx.count("curves_with_specific_yield_dipping_below_zero")
+    if wit is None and sy_positive and any(b >= a for a, b in zip(t, t[1:])):
         wit = {"why": "elapsed time does not increase as the level falls", "curve": t[:6]}
     if wit is None and n >= 2:
         with warnings.catch_warnings():
@@ -120,16 +125,19 @@ def run(ctx):
     common.import_spowtd()
     warnings.simplefilter("ignore")
     rng = ctx.rng
-    nsets, ncli = (6, 10) if ctx.tier == "quick" else (150, 80)
+    nsets, ncli = (9, 10) if ctx.tier == "quick" else (150, 80)
     n_cli_done = 0
     for k in range(nsets):
         params = sim.spline_params(rng, -300.0, 100.0) if k % 3 else sim.peatclsm_params(rng, 100.0)
+        if k % 3 == 2:
+            # any parameter values: a specific yield whose cubic undershoots below zero between sparse knots
+            params = sim.spline_params(rng, -300.0, 100.0, n_sy=rng.randint(6, 9), oscillating=True)
         if params["transmissivity"]["type"] == "spline":
             tk = params["transmissivity"]["zeta_knots_mm"]
             lo, hi = -330.0, min(tk[-1] - 0.5, 130.0)
         else:
             lo, hi = -330.0, params["transmissivity"]["zeta_max_cm"] * 10 - 1.0
-        n = rng.randint(3, 8)
+        n = rng.randint(3, 8) if k % 3 != 2 else rng.randint(12, 20)
         grid = sorted({round(rng.uniform(lo, hi), 1) for _ in range(n)})
         if len(grid) < 3:
             continue
